@@ -905,6 +905,11 @@ class ExecuteStep(BaseStep):
                             for t in unfinished:
                                 t.cancel()
                         statuses.append(job_status)
+                # A failed job may have been processed before other tasks of the same round
+                # added new jobs or a new `retrieve_inputs` task: cancel them as well
+                if any(s in (Status.CANCELLED, Status.FAILED) for s in statuses):
+                    for t in unfinished:
+                        t.cancel()
         # Otherwise simply run job
         else:
             # Retrieve job
